@@ -934,7 +934,7 @@ def _abs_gen(a):
 def _psqrt(p):
     """exact square root of a polynomial that is a perfect square (q with q*q == p), else None"""
     q = _msqrt(p)
-    if q is not None or len(p.t) < 3 or terms.RULES:
+    if q is not None or len(p.t) < 3 or (terms.RULES and any(v in terms.RULES for v in p.vars())):
         return q
     m0, c0 = p.lt()
     t0 = _msqrt(Poly({m0: c0}))
